@@ -24,7 +24,7 @@ import time
 import vlib
 
 PID = "C20"
-DESIGN_INV = "TypeOK Ownership Fidelity BadNeverSent SharedUnaltered SamplesExact NeighboursUnaffected"
+DESIGN_INV = "TypeOK Ownership Fidelity BadNeverSent SharedUnaltered SamplesExact NeighboursUnaffected ReceivedOnce"
 
 
 MANIFEST = dict(
@@ -380,7 +380,8 @@ def drive(b, doc, d, name="cases"):
 
 # ---------------------------------------------------------------------------------- connection / life-cycle part
 
-WIRE_NEG = ["inplace", "abortonbad", "dropmd", "shareddialsreflect", "scenariodeadline", "dirtyafterfail", "leakmd", "keepdefaults", "lastwins"]
+WIRE_NEG = ["inplace", "abortonbad", "dropmd", "shareddialsreflect", "scenariodeadline", "dirtyafterfail", "leakmd", "keepdefaults", "lastwins",
+            "retryunavailable"]
 CONN_NEG = ["dialpershot", "poolignored", "ignorewarmfail", "dieonfailure"]
 
 
@@ -525,6 +526,100 @@ def conn_part(v, b, d, thorough):
             "conn_samples": [brief(r_) for r_ in rows if r_["ev"] in ("ConnBegin", "Recv", "TargetDown", "Recovered")][:4]}
 
 
+# ---------------------------------------------------------------------------------- JSON -> protobuf mapping part
+
+JSON_NEG = ["viafloat", "keepdefaults"]
+
+
+def json_design_jobs():
+    kw = dict(workers=1, deadlock=False, timeout=600, heap="2g")
+    return [("GrpcJsonMC", "GrpcJson_exh.cfg", kw)] + [("GrpcJsonMC", "GrpcJson_neg_%s.cfg" % n, kw) for n in JSON_NEG]
+
+
+def json_mismatches(rows, d, tag):
+    """One TLC pass over the Case lines: TraceGrpcJson evaluates GrpcJson!Expect on every recorded case and prints the
+    line number of every case that disagrees.  Returns (list of 0-based row indices, TLC states)."""
+    ok, ln, inv, st, r = trace_check("TraceGrpcJson", "TraceGrpcJson.cfg", rows, d, tag=tag)
+    if not ok:
+        raise vlib.MachineryError("TraceGrpcJson stopped at line %s of %d: %s" % (ln, len(rows), json.dumps(brief(rows[min(ln, len(rows)) - 1]))[:600]))
+    return sorted({int(m.group(1)) - 1 for m in re.finditer(r'<<"VERIF-MISMATCH", (\d+)>>', r.out)}), st
+
+
+def _first_case(rows, pred, f):
+    for r_ in rows:
+        if r_["ev"] == "Case" and not r_.get("corrupted") and pred(r_):   # every corruption gets a case of its own
+            f(r_)
+            r_["corrupted"] = True
+            return True
+    return False
+
+
+JSON_CORRUPTIONS = [
+    ("a decoded leaf carries another value",
+     lambda rows: _first_case(rows, lambda r_: r_["recv"] == 1 and r_["leaves"], lambda r_: r_["leaves"][0].__setitem__("v", "i57"))),
+    ("a field the payload sets is missing from the decoded message",
+     lambda rows: _first_case(rows, lambda r_: r_["recv"] == 1 and len(r_["leaves"]) > 1, lambda r_: r_["leaves"].pop())),
+    ("a payload that does not fit is sent",
+     lambda rows: _first_case(rows, lambda r_: r_["recv"] == 0 and r_["fail"] == 1, lambda r_: r_.update(recv=1, ok=1, fail=0))),
+    ("a payload that fits is answered with a failed sample and never sent",
+     lambda rows: _first_case(rows, lambda r_: r_["recv"] == 1 and r_["ok"] == 1, lambda r_: r_.update(recv=0, ok=0, fail=1, leaves=[]))),
+    ("a default-valued plain scalar arrives as set",
+     lambda rows: _first_case(rows, lambda r_: r_["recv"] == 1 and not r_["leaves"] and r_["json"] == '{"i64": 0}',
+                              lambda r_: r_.__setitem__("leaves", [{"p": "i64", "v": "i0"}]))),
+]
+
+
+def json_part(v, b, d, thorough, r):
+    """r: the TLC run of GrpcJson_exh.cfg -- it checked the properties of the interpretation AND printed the case space."""
+    import copy
+    doc = None
+    for ln in r.out.splitlines():
+        if ln.startswith('<<"VERIF", "'):
+            doc = json.loads(json.loads(ln[len('<<"VERIF", '):-2]))
+    if doc is None or r.error:
+        raise vlib.MachineryError("GrpcJsonMC generated no cases\n" + r.out[-2000:])
+    cases = os.path.join(d, "jsoncases.json")
+    json.dump(doc, open(cases, "w"))
+    trace = os.path.join(d, "jsonmap.ndjson")
+    wd = os.path.join(d, "jsonmap-work")
+    os.makedirs(wd, exist_ok=True)
+    vlib.run_driver(b, ["grpcjson", "-cases", cases, "-dir", wd, "-out", trace, "-inst", "3" if thorough else "2"], timeout=600)
+    rows = vlib.read_ndjson(trace)
+    t0 = time.time()
+    for e in (r_ for r_ in rows if r_["ev"] == "RunEnd" and r_["err"]):
+        v.violation("jsonmap run=%s at=RunEnd:err" % e["run"], "JSON mapping run %s ended with %s" % (e["run"], e["err"][:300]))
+        e["err"] = ""
+    bad, states = json_mismatches(rows, d, "jsonmap")
+    for i in bad:
+        row = rows[i]
+        sig = "jsonmap kind=%s msg=%s payload=%s at=Case:recv=%s,ok=%s,fail=%s" % (row["kind"], row["msg"], row["json"], row["recv"], row["ok"], row["fail"])
+        v.violation(sig, "%s entry with call %s and payload %s: the server %s; samples ok=%s failed=%s (codes %s) -- not what the payload "
+                    "interpreted against %s (GrpcJson!Expect) says" % (
+                        "grpc/json" if row["kind"] == "json" else "gRPC scenario", row["method"], row["json"],
+                        ("decoded %s" % row["canon"]) if row["recv"] else "received nothing", row["ok"], row["fail"], row.get("codes"), row["msg"]),
+                    replay_obj={"kind": "grpcjson", "case": {k: row[k] for k in ("id", "msg", "method", "w")}, "observed": brief(row)},
+                    replay_name="jsonmap-%s-%s.json" % (row["kind"], row["id"]))
+    corrupted = 0
+    if not bad:
+        # binding self-test, one TLC pass: every corruption hits another case of a copy of the trace; each must be reported
+        rows2 = copy.deepcopy(rows)
+        before = copy.deepcopy(rows)
+        applied = [name for name, mutate in JSON_CORRUPTIONS if mutate(rows2)]
+        touched = [i for i in range(len(rows)) if rows2[i] != before[i]]
+        got, _ = json_mismatches(rows2, d, "jsoncorrupt")
+        if len(touched) != len(applied) or sorted(got) != touched:
+            raise vlib.MachineryError("binding self-test: of %d corrupted JSON-mapping cases (lines %s) TraceGrpcJson reported %s" % (
+                len(applied), touched, got))
+        corrupted = len(applied)
+    vlib.log("JSON mapping part: %d cases x %d kinds, %d disagree, validation + self-test %.1fs" % (
+        doc["n"], sum(1 for r_ in rows if r_["ev"] == "Run"), len(bad), time.time() - t0))
+    caserows = [r_ for r_ in rows if r_["ev"] == "Case"]
+    return {"jsonmap_cases": doc["n"], "jsonmap_cases_expected_sent": doc["sent"], "jsonmap_evaluations": len(caserows),
+            "jsonmap_disagreeing": len(bad), "jsonmap_trace_spec_states": states, "jsonmap_corrupted_traces_rejected": corrupted,
+            "jsonmap_message_types": sorted({r_["msg"] for r_ in caserows}), "jsonmap_negative_controls": JSON_NEG,
+            "jsonmap_samples": [{k: r_[k] for k in ("kind", "msg", "json", "recv", "canon", "ok", "fail")} for r_ in caserows[11:300:97]]}
+
+
 def run(tier, v):
     thorough = tier == "thorough"
     # 1. design level + negative controls
@@ -538,10 +633,14 @@ def run(tier, v):
     jobs = [main] + more_pass + neg
     t0 = time.time()
     cjobs = conn_design_jobs(thorough)
-    allres = tlc_parallel(jobs + cjobs)
-    res, cres = allres[:len(jobs)], allres[len(jobs):]
+    jjobs = json_design_jobs()
+    allres = tlc_parallel(jobs + cjobs + jjobs)
+    res, cres, jres = allres[:len(jobs)], allres[len(jobs):len(jobs) + len(cjobs)], allres[len(jobs) + len(cjobs):]
     vlib.tlc_must_pass(cres[0], cjobs[0][1])
     for j, r in zip(cjobs[1:], cres[1:]):
+        vlib.tlc_must_fail(r, j[1])
+    vlib.tlc_must_pass(jres[0], jjobs[0][1])
+    for j, r in zip(jjobs[1:], jres[1:]):
         vlib.tlc_must_fail(r, j[1])
     vlib.log("design TLC + negative controls: %.1fs (%d + %d states)" % (time.time() - t0, res[0].distinct, cres[0].distinct))
     states, trans = 0, 0
@@ -561,6 +660,7 @@ def run(tier, v):
     vlib.log("trace validation: %.1fs (%d lines, %d states)" % (time.time() - t0, len(rows), tstates))
     corrupted = corruption_selftest(split_runs(rows), d, "TraceGrpcWire", "TraceGrpcWire.cfg", C20_CORRUPTIONS) if rejected == 0 else 0
     conn = conn_part(v, b, d, thorough)
+    jm = json_part(v, b, d, thorough, jres[0])
     states += cres[0].distinct
     trans += cres[0].generated
     validated += conn["conn_runs_validated"]
@@ -586,6 +686,8 @@ def run(tier, v):
         "negative_controls": WIRE_NEG, "corrupted_traces_rejected": corrupted, "design_configs": [j[1] for j in jobs[:1 + len(more_pass)]],
     }
     cov.update(conn)
+    cov.update(jm)
+    cov["evaluations"] += jm["jsonmap_evaluations"]
     return "model_checking", cov, [
         "connection part (GrpcConn.tla): client identities are not observable, connections are (grpc stats.Handler of the in-process target); "
         "after an outage every client may reconnect once; 'the target comes back' is judged by calls arriving again within 60 s",
